@@ -17,7 +17,7 @@ from symx.models import fcdist
 from symx.npproxy import NPProxy
 from symx.prove import Prover, purify
 from symx.runner import Acc
-from harness.common import bound, z, fval
+from harness.common import bypass_guard, bound, z, fval
 from harness.geom import position_spec
 
 PROPERTY = "C11"
@@ -87,6 +87,7 @@ def run_radial(shape):
     for path in eng.explore(body):
         acc.begin(prover, path)
         if path.kind == "exc":
+            bypass_guard(path.value)
             acc.structural("no_exception", False, detail=repr(path.value) + (path.tb or "")[-500:], cex={"kind": "exception", "exc": type(path.value).__name__})
             continue
         if acc.reachable is not True:
@@ -139,6 +140,7 @@ def run_direction(shape):
     for path in eng.explore(body):
         acc.begin(prover, path)
         if path.kind == "exc":
+            bypass_guard(path.value)
             acc.structural("no_exception", False, detail=repr(path.value) + (path.tb or "")[-500:], cex={"kind": "exception", "exc": type(path.value).__name__})
             continue
         if acc.reachable is not True:
@@ -344,6 +346,7 @@ def run_compose(shape):
     for path in eng.explore(body):
         acc.begin(prover, path)
         if path.kind == "exc":
+            bypass_guard(path.value)
             acc.structural("no_exception", False, detail=repr(path.value) + (path.tb or "")[-700:], cex={"kind": "exception", "exc": type(path.value).__name__})
             continue
         if acc.reachable is not True:
